@@ -206,6 +206,11 @@ static int run_fn() {
             SDAI_Application_instance * o = sf.CreateSubSuperInstance( in, 1, e );
             r << "ok obj=" << ( ( o && o != ENTITY_NULL ) ? 1 : 0 );
             if( o && o != ENTITY_NULL ) delete o;
+        } else if( fn == "getkeyword" ) {
+            std::istringstream in( bytes );
+            ErrorDescriptor e;
+            std::string kw = GetKeyword( in, ";( /\\", e );
+            r << "ok len=" << kw.size() << " " << obs( in );
         } else if( fn == "finddata" ) {
             std::istringstream in( bytes );
             InstMgr im; SF sf( reg, im );
